@@ -340,6 +340,9 @@ func (g *FuncGen) tr(env *Env, e Expr) Val {
 	case *EOld:
 		n := *env
 		n.cur = env.old
+		if x.Entry && g.entry != nil {
+			n.cur = g.entry
+		}
 		n.inOld = true
 		return g.tr(&n, x.X)
 	case *EUnary:
